@@ -1715,7 +1715,13 @@ impl<'input, T: Input> Scanner<'input, T> {
         }
 
         // At the top level (`self.indent == -1`), a line at column 0 is not part of the scalar.
-        if self.mark.col < indent && (self.mark.col as isize) > self.indent.max(0) {
+        // With an explicit indentation indicator, a `#` line indented less than the content is a
+        // comment that ends the (so far empty) scalar. (Without one, the first non-empty line
+        // decides the indentation and such a line is content.)
+        if self.mark.col < indent
+            && (self.mark.col as isize) > self.indent.max(0)
+            && !(increment > 0 && self.input.look_ch() == '#')
+        {
             return Err(ScanError::new_str(
                 self.mark,
                 "wrongly indented line in block scalar",
